@@ -84,6 +84,18 @@ func c17Make(r *fw.Rand, tokBase int) *c17Doc {
 		p.Living = true
 		d.living[p.Idx] = true
 	}
+	// family events happen somewhere too: the place pages then list events
+	// that belong to a couple, not to one individual
+	for _, f := range g.Families {
+		for _, e := range f.Events {
+			if e.Place == "" && r.Chance(2, 3) {
+				e.Place = next() + ", " + next()
+			}
+		}
+		if r.Chance(1, 4) {
+			f.Events = append(f.Events, &gen.Ev{Tag: "DIV", Y: 1990, M: 1 + r.Intn(12), D: 1 + r.Intn(28), Place: next() + ", " + next()})
+		}
+	}
 	// a living person sharing a place with a dead person
 	var dead, alive []*gen.Person
 	for _, p := range g.People {
@@ -192,7 +204,7 @@ func c17N(tier string) int {
 	if tier == "thorough" {
 		return 600
 	}
-	return 40
+	return 120
 }
 
 func init() {
@@ -203,7 +215,7 @@ func init() {
 		Cases:    func(tier string, seed uint64) int { return c17N(tier) },
 		Run:      c17Run,
 		Batch:    func(tier string, n int) int { return 2 },
-		Rule: "generated family graphs whose every private string is a unique marker token (given names, surnames, alternative names, nicknames, name prefixes, places; dates unique per person), with living people fixed by construction in every role (child, spouse, parent, unconnected, sharing a surname or place with a dead person, no dates at all, born 2000+, buried but no death), published into a recording FileWriter with visibility hide and placeholder under page-group subsets (quick: 12 masks per document incl. all-on, each single group off, all-off; thorough: all 64) x jobs 1/4. " +
+		Rule: "generated family graphs whose every private string is a unique marker token (given names, surnames, alternative names, nicknames, name prefixes, places, also of marriages and divorces; dates unique per person), with living people fixed by construction in every role (child, spouse, parent, unconnected, sharing a surname or place with a dead person, no dates at all, born 2000+, buried but no death), published into a recording FileWriter with visibility hide and placeholder under page-group subsets (quick: 12 masks per document incl. all-on, each single group off, all-off; thorough: all 64) x jobs 1/4. " +
 			"monitors: marker search (case-insensitive) for every name token owned only by living people over all file names and bytes; hide differential (document with every living person's names/dates/places redrawn must publish byte-identical files); non-living people keep their page and their own tokens as in show mode; one configuration per document through the real 'gedcom publish'. non-trivial = document with at least one living and one dead person; distinct by text + configuration",
 		Floors: func(a *fw.Agg, tier string) []string {
 			var f []string
